@@ -19,6 +19,7 @@ import (
 
 	"github.com/openfga/openfga/internal/verifharness/lib/rec"
 	"github.com/openfga/openfga/pkg/server"
+	serverErrors "github.com/openfga/openfga/pkg/server/errors"
 	"github.com/openfga/openfga/pkg/storage"
 	"github.com/openfga/openfga/pkg/storage/cache/keys"
 	"github.com/openfga/openfga/pkg/storage/memory"
@@ -27,6 +28,11 @@ import (
 
 // ---------------------------------------------------------------------------------------------
 // fault injection below the server
+
+var (
+	serverErrCancelled = serverErrors.ErrRequestCancelled
+	serverErrDeadline  = serverErrors.ErrRequestDeadlineExceeded
+)
 
 type planKey struct{}
 
@@ -546,8 +552,8 @@ func runE2E(w *rec.Writer, d caseDesc, wmu *sync.Mutex) {
 	}
 	// reference answers: no cache, no faults
 	refAns := map[string]string{}
-	bad := 0
-	var firstBad string
+	bad, leaks := 0, 0
+	var firstBad, firstLeak string
 	for _, o := range checked {
 		k := o.q.String()
 		a, ok := refAns[k]
@@ -556,6 +562,17 @@ func runE2E(w *rec.Writer, d caseDesc, wmu *sync.Mutex) {
 			refAns[k] = a
 		}
 		if a != o.ans {
+			// finding shared_admission_cancel_leak: with shared iterators on, a request whose own context
+			// was never cancelled joins a storage item whose producer ran under an earlier, cancelled
+			// request's context and is told "cancelled" (deterministic reproduction: class D)
+			if pair == "on_shared" && faulted > 0 && !strings.HasPrefix(a, "E:") &&
+				(o.ans == "E:"+errText(serverErrCancelled) || o.ans == "E:"+errText(serverErrDeadline)) {
+				leaks++
+				if firstLeak == "" {
+					firstLeak = fmt.Sprintf("%s: cached=%s uncached=%s", k, o.ans, a)
+				}
+				continue
+			}
 			bad++
 			if firstBad == "" {
 				firstBad = fmt.Sprintf("%s: cached=%s uncached=%s", k, o.ans, a)
@@ -572,6 +589,10 @@ func runE2E(w *rec.Writer, d caseDesc, wmu *sync.Mutex) {
 	w.Stat("C.faulted_requests_that_still_answered", own)
 	if !quiet {
 		w.Stat("C.quiesce_timeouts", 1)
+	}
+	if leaks > 0 {
+		w.Known("shared_admission_cancel_leak", "C09 e2e: a later request with a live context failed with a cancellation error: "+firstLeak,
+			map[string]any{"kind": "C", "seed": d.Seed, "idx": d.Idx, "config": pair, "requests": leaks})
 	}
 	if bad > 0 {
 		w.PropFail("C09 e2e: an answer with the iterator caches on differs from the uncached answer: "+firstBad,
